@@ -212,7 +212,12 @@ func (fr *frame) visitInstr(instr ssa.Instruction) (ret bool) {
 	case *ssa.Send:
 		m.chanSend(fr, fr.get(instr.Chan).(*Chan), fr.get(instr.X))
 	case *ssa.Store:
-		p := fr.ptr(fr.get(instr.Addr))
+		av := fr.get(instr.Addr)
+		if sp, isSym := av.(*SymElemPtr); isSym {
+			sp.storeVal(m, fr.get(instr.Val))
+			break
+		}
+		p := fr.ptr(av)
 		m.store(p, copyVal(fr.get(instr.Val)))
 	case *ssa.If:
 		c := fr.get(instr.Cond)
@@ -282,6 +287,11 @@ func (fr *frame) visitInstr(instr ssa.Instruction) (ret bool) {
 		idx := fr.toInt64(fr.get(instr.Index), instr.Index.Type())
 		switch x := x.(type) {
 		case []Value:
+			if !idx.IsConst() && scalarCells(x) {
+				fr.boundsOnly(idx, len(x))
+				fr.env[instr] = &SymElemPtr{arr: x, idx: idx}
+				break
+			}
 			i := fr.boundsIndex(idx, len(x))
 			fr.env[instr] = &x[i]
 		case *Value:
@@ -289,6 +299,11 @@ func (fr *frame) visitInstr(instr ssa.Instruction) (ret bool) {
 				fr.tpanic("nil-deref", "invalid memory address or nil pointer dereference")
 			}
 			a := (*x).(Array)
+			if !idx.IsConst() && scalarCells(a) {
+				fr.boundsOnly(idx, len(a))
+				fr.env[instr] = &SymElemPtr{arr: a, idx: idx}
+				break
+			}
 			i := fr.boundsIndex(idx, len(a))
 			fr.env[instr] = &a[i]
 		default:
@@ -299,6 +314,11 @@ func (fr *frame) visitInstr(instr ssa.Instruction) (ret bool) {
 		idx := fr.toInt64(fr.get(instr.Index), instr.Index.Type())
 		switch x := x.(type) {
 		case Array:
+			if !idx.IsConst() && scalarCells(x) {
+				fr.boundsOnly(idx, len(x))
+				fr.env[instr] = (&SymElemPtr{arr: x, idx: idx}).load()
+				break
+			}
 			i := fr.boundsIndex(idx, len(x))
 			fr.env[instr] = x[i]
 		case string:
@@ -345,6 +365,11 @@ func (fr *frame) ptr(v Value) *Value {
 	if p, bad := v.(Poison); bad {
 		fr.m.unsupported("dereference of poison: %s", p.Why)
 	}
+	if sp, isSym := v.(*SymElemPtr); isSym {
+		// a symbolic element address escaping into other uses is concretised
+		i := fr.m.Concretize(sp.idx, "symbolic element address at "+fr.m.posStr(fr.curPos))
+		return &sp.arr[i]
+	}
 	p, ok := v.(*Value)
 	if !ok {
 		panic(fmt.Sprintf("ptr: not a pointer: %T in %s", v, fr.fn))
@@ -372,6 +397,14 @@ func (fr *frame) toInt64(v Value, t types.Type) *term.Term {
 		return term.SExt(x, 64)
 	}
 	return term.ZExt(x, 64)
+}
+
+// boundsOnly checks 0 <= idx < n (forking the panic path) without concretising idx.
+func (fr *frame) boundsOnly(idx *term.Term, n int) {
+	in := term.Cmp(term.OUlt, idx, term.Const(64, uint64(n)))
+	if !fr.m.Decide(in) {
+		fr.tpanic("index", "index out of range [%s] with length %d", describe(idx), n)
+	}
 }
 
 // boundsIndex checks 0 <= idx < n (forking the panic path) and concretises idx.
